@@ -445,6 +445,19 @@ def cases(rng, tier="quick"):
             sp = rng.choice([0, 1, 2, 5, 7, 10])
             toks, info = options(rng, g, speed=sp, submethod=sub, quant=rng.random() < 0.8)
             out.append(make(g, toks, info, ("topo:" + name, "atts:pos", f"sub:{sub}", f"speed:{sp}")))
+    # 1b. invalid-vertex compaction: tori with holes decoded without attribute connectivity (position only, or one
+    #     connectivity for all attributes); fixed generator seeds found by search reach "skip two trailing invalid
+    #     vertices" and "swap after a vertex that needed no swap"; the evidence tags eb:compact:* show whether they still do
+    import random as _random
+    fixed = [1006, 1055, 1059, 1070, 1072, 1075, 1004, 1005, 1008, 1009]
+    for k in fixed[:(6 if tier == "quick" else 10)] + [None] * (6 if tier == "quick" else 40):
+        r = _random.Random(k) if k is not None else rng
+        topo = with_holes(r, torus(r, r.randint(3, 6), r.randint(3, 6)), r.choice([0.1, 0.2]))
+        single = k is None and rng.random() < 0.4
+        g = build(r, topo, [("tex", "seam_random")] if single else [])
+        toks, info = options(rng, g, speed=rng.choice([7, 8, 9]) if single else rng.choice([0, 3, 5, 10]),
+                             submethod=rng.choice([0, 2]))
+        out.append(make(g, toks, info, ("topo:torus_holes_compaction", "atts:" + ("pos+tex_single_connectivity" if single else "pos"))))
     # 2. attribute sets x seam layouts x split_mesh_on_seams x speeds, on topologies with interior and boundary vertices
     rich = [t for t in topos if t[0] in ("grid", "grid_holes", "torus", "cylinder", "sphere", "components", "patch", "bowtie", "soup", "grid_large", "disc")]
     for aname, extra in ATT_SETS[1:]:
